@@ -285,6 +285,9 @@ void point(Kind kind, int order, const void* addr, const char* file, int line) n
 
 int self() noexcept { return me ? me->id : -1; }
 uint64_t now_ns() noexcept { return G.vtime; }
+static int64_t g_wall_offset = 0;
+void step_wall_clock(int64_t ns) noexcept { g_wall_offset += ns; }
+namespace ip { int64_t wall_offset() noexcept { return g_wall_offset; } }
 uint64_t stamp() noexcept { return ++G.seq; }
 void advance_time(uint64_t ns) noexcept {
   if (!me) {
@@ -463,6 +466,7 @@ int futex_wake(uint32_t*, int);
 void sleep_ns(uint64_t);
 void yield();
 uint64_t vtime();
+int64_t wall_offset() noexcept;
 int create(pthread_t*, const pthread_attr_t*, void* (*)(void*), void*);
 bool join(pthread_t, void**, int*);
 void mutex_block(const void*);
@@ -539,6 +543,9 @@ extern "C" int sched_yield(void) noexcept {
 extern "C" int clock_gettime(clockid_t clk, struct timespec* ts) noexcept {
   if (verif::ip::registered()) {
     uint64_t t = verif::ip::vtime();
+    // calendar clocks can be stepped by the client program (NTP step, date -s, VM resume); monotonic ones cannot
+    if (clk == CLOCK_REALTIME || clk == CLOCK_REALTIME_COARSE || clk == CLOCK_REALTIME_ALARM || clk == CLOCK_TAI)
+      t = (uint64_t)((int64_t)t + verif::ip::wall_offset());
     ts->tv_sec = 1000000 + (time_t)(t / 1000000000ull);
     ts->tv_nsec = (long)(t % 1000000000ull);
     return 0;
